@@ -111,18 +111,18 @@ _MORE = {
     "C01": " Added: the regression guard compares with a value carried across blobs; the write queue registers a piece on both table arms and accepted entries keep their reference until the batch io completes; clear() awaits queued writes, clears every index shard and wipes every block; single-step must-call obligations (recovery dedup, Engine forwarding, flusher receive points).",
     "C03": " Added: error discipline — the Result of every device read / write of the block engine and the tombstone log is ?-propagated, matched or handed on.",
     "C04": " Added: tombstone tail/slot/append incl. whole-batch append; the same error discipline on device calls; must-call obligations (index insertion of a new hash, recovery installs the rebuilt index and every scanned entry / tombstone reaches the dedup table).",
-    "C05": " Added: index <-> eviction-container pairing (a record leaving the index is unlinked when flagged in-eviction, an indexed record is pushed, clear clears both); resize target as an affine equality; capacity split; HashTableIndexer::insert arms.",
+    "C05": " Added: index <-> eviction-container pairing (a record leaving the index is unlinked when flagged in-eviction, an indexed record is pushed, clear clears both); resize target as an affine equality; the capacity split has exactly the shape total/shards + (index < total%shards); HashTableIndexer::insert arms.",
     "C06": " Added: id freshness of in-flight entries (counter advanced by a non-zero step, shared by table entry and leader); a superseded fetch abandons in both states; a finished fetch inserts its value.",
     "C07": " Added: scan stops at stale / damaged blobs; BlobIndex::write places at slot `count` and advances it by one; must-call obligations for header / index / data writes into the flusher buffer, blob parts joining the batch, index resets.",
     "C08": " Added: decision table of the decode length test (guards every slice); push / push_slice agree on the size limit; bool decode reads the byte it tests; length-prefixed decode buffers are sized from the prefix and read errors are propagated; serialize_key encodes the key.",
     "C09": " Added: re-insertion accepts exactly the sizes insertion accepts; taken eviction pickers are restored on every path; init partitions blocks into clean and evictable.",
     "C10": " Added: page -> partition resolution table (PageBuffer::locate); recovered tombstones are returned; the tail page is loaded on open.",
     "C11": " Added: every hash-table probe of the in-flight table compares full keys; an insert answers the waiters it takes with the inserted record on every path of emplace.",
-    "C12": " Added: a throttled disk lookup is remembered before the origin fetch; probation marks are reset with every other per-generation statistic (reclaim and destroy).",
+    "C12": " Added: a throttled disk lookup is remembered before the origin fetch; probation marks are reset with every other per-generation statistic (reclaim and destroy); who-may-guard: every condition guarding a Store::enqueue of the hybrid layer is one of the prescribed kinds, so admitted entries do reach the disk tier; who-may-write for the engine's `active` flag and the probation mark.",
     "C13": " Added: every body that fills a garbage list (found by type: insert_inner, evict_all, resize, flush) notifies the listener per element and offers the list to the pipe; clear() and the cache's Drop reach RawCacheShard::clear of every shard.",
-    "C14": " Added: S3-FIFO ghost queue (affine overflow test incl. helper translation, termination, state pairing); in-eviction flag discipline of all five algorithms; remove unlinks from the tagged queue; lookups feed frequency / visited bit / sketch; resize reaches every derived capacity; per-path and per-record accounting of queue weights and tags in S3-FIFO and w-TinyLFU; frequency steps by exactly one.",
-    "C15": " Added: the submit-queue admission counter is released for every received entry by the amount added (paired accounting, must-pass) and the gate drops only above the threshold; BlockEngine::wait awaits a Wait round-trip through every flusher and the reclaimers; waiters are answered only on io completion; both receive points of the runner hand submissions to recv.",
-    "C18": " Added: from refs==0 every non-phantom path reaches the release operator and each operator arm runs its closure; emplace's count is exactly waiters+1 (affine normal form); one strong count per Piece (taken over in new, added in clone, returned once by drop or into_record).",
+    "C14": " Added: S3-FIFO ghost queue (affine overflow test incl. helper translation, termination, state pairing); in-eviction flag discipline of all five algorithms; remove unlinks from the tagged queue; lookups feed frequency / visited bit / sketch; resize reaches every derived capacity; per-path and per-record accounting of queue weights and tags in S3-FIFO and w-TinyLFU; frequency steps by exactly one; the newcomer is linked before its queue's overflow test (LFU window, LRU pool).",
+    "C15": " Added: the submit-queue admission counter is released for every received entry by the amount added (paired accounting, must-pass) and the gate drops only above the threshold; BlockEngine::wait awaits a Wait round-trip through every flusher and the reclaimers; waiters are answered only on io completion; both receive points of the runner hand submissions to recv; close waits unconditionally; flush runs exactly when flush_on_close is set; Drop spawns the graceful close unconditionally and only close_inner writes the closed flag; who-may-guard the disk write of a flushed entry; who-may-write the `active` flag.",
+    "C18": " Added: from refs==0 every non-phantom path reaches the release operator and each operator arm runs its closure; emplace's count is exactly waiters+1 (affine normal form); one strong count per Piece (taken over in new, added in clone, returned once by drop or into_record); every returned record is counted and every notified waiter gets a handle (must-pass); the Sentry flag writes are unconditional.",
 }
 for _p, _t in _MORE.items():
     if _p in CLAIMED:
